@@ -270,3 +270,114 @@ Theorem C16_rotate_face_cw_NoDup :
   forall n face : nat, List.NoDup (List.concat (rotate_face_cw n face)).
 Proof. exact @rotate_face_cw_NoDup. Qed.
 Print Assumptions C16_rotate_face_cw_NoDup.
+
+From V Require Import Base Perm PermProofs Puzzles PuzzlesProofs CubeGeneral PuzzlesGeneral.
+
+(* EVERY n >= 2: the full cube structure - layer turns AND the generator sets of all four metrics (QSTM, QTM, HTM, ATM) are permutations of 6n^2 stickers and inverse-closed *)
+Theorem C16_cube_general :
+  forall n : nat, 2 <= n -> CubeStructure n.
+Proof. exact @cube_general. Qed.
+Print Assumptions C16_cube_general.
+
+(* ALL ring sizes >= 2 and all accepted index pairs: both rotations are single cycles of the ring lengths meeting exactly in {0} / {0, left_index} at the stated spacing, step -1 is the inverse, generator sets inverse-closed *)
+Theorem C16_rings_general :
+  forall ls li rs ri : BinNums.Z,
+         BinInt.Z.le (BinNums.Zpos (BinNums.xO BinNums.xH)) ls ->
+         BinInt.Z.le (BinNums.Zpos (BinNums.xO BinNums.xH)) rs ->
+         li = BinNums.Z0 /\ ri = BinNums.Z0 \/
+         (BinInt.Z.le (BinNums.Zpos BinNums.xH) li /\ BinInt.Z.lt li ls) /\
+         BinInt.Z.le (BinNums.Zpos BinNums.xH) ri /\ BinInt.Z.lt ri rs -> 
+         RingsStructure ls li rs ri.
+Proof. exact @rings_general. Qed.
+Print Assumptions C16_rings_general.
+
+(* the same spelled out on the two rotations *)
+Theorem C16_rings_rotations_general :
+  forall ls li rs ri : BinNums.Z,
+         BinInt.Z.le (BinNums.Zpos (BinNums.xO BinNums.xH)) ls ->
+         BinInt.Z.le (BinNums.Zpos (BinNums.xO BinNums.xH)) rs ->
+         li = BinNums.Z0 /\ ri = BinNums.Z0 \/
+         (BinInt.Z.le (BinNums.Zpos BinNums.xH) li /\ BinInt.Z.lt li ls) /\
+         BinInt.Z.le (BinNums.Zpos BinNums.xH) ri /\ BinInt.Z.lt ri rs ->
+         exists L R : list nat,
+           hungarian_rings_permutations ls li rs ri (BinNums.Zpos BinNums.xH) =
+           Ok (List.map BinInt.Z.of_nat L, List.map BinInt.Z.of_nat R) /\
+           hungarian_rings_permutations ls li rs ri (BinNums.Zneg BinNums.xH) =
+           Ok (List.map BinInt.Z.of_nat (inverse_perm L), List.map BinInt.Z.of_nat (inverse_perm R)) /\
+           Perm L /\
+           Perm R /\
+           SingleCycle L (BinInt.Z.to_nat ls) /\
+           SingleCycle R (BinInt.Z.to_nat rs) /\
+           (forall x : nat, Moved L x /\ Moved R x <-> x = 0 \/ x = BinInt.Z.to_nat li) /\
+           (DistIs L 0 (BinInt.Z.to_nat li) (BinInt.Z.to_nat li) \/
+            DistIs L (BinInt.Z.to_nat li) 0 (BinInt.Z.to_nat li)) /\
+           (DistIs R 0 (BinInt.Z.to_nat li) (BinInt.Z.to_nat ri) \/
+            DistIs R (BinInt.Z.to_nat li) 0 (BinInt.Z.to_nat ri)).
+Proof. exact @rings_rotations_general. Qed.
+Print Assumptions C16_rings_rotations_general.
+
+(* ALL a, b >= 1: r-generators are single cycles of length 2b on their row, f-generators involutions, generator set inverse-closed *)
+Theorem C16_globe_general :
+  forall a b : nat, 1 <= a -> 1 <= b -> GlobeStructure a b.
+Proof. exact @globe_general. Qed.
+Print Assumptions C16_globe_general.
+
+(* globe, cube and ring generator sets are inverse-closed, for all parameters *)
+Theorem C16_generator_sets_inverse_closed :
+  (forall (n : nat) (metric : String.string),
+          2 <= n ->
+          List.In metric
+            (String.String (Ascii.Ascii true false false false true false true false)
+               (String.String (Ascii.Ascii true true false false true false true false)
+                  (String.String (Ascii.Ascii false false true false true false true false)
+                     (String.String (Ascii.Ascii true false true true false false true false)
+                        String.EmptyString)))
+             :: String.String (Ascii.Ascii true false false false true false true false)
+                  (String.String (Ascii.Ascii false false true false true false true false)
+                     (String.String (Ascii.Ascii true false true true false false true false)
+                        String.EmptyString))
+                :: String.String (Ascii.Ascii false false false true false false true false)
+                     (String.String (Ascii.Ascii false false true false true false true false)
+                        (String.String (Ascii.Ascii true false true true false false true false)
+                           String.EmptyString))
+                   :: String.String (Ascii.Ascii true false false false false false true false)
+                        (String.String (Ascii.Ascii false false true false true false true false)
+                           (String.String (Ascii.Ascii true false true true false false true false)
+                              String.EmptyString)) :: nil) ->
+          exists pz : puzzle,
+            rubik_cube (BinInt.Z.of_nat n) metric = Ok pz /\
+            (forall g : list nat, List.In g (pz_gens pz) -> length g = 6 * (n * n) /\ Perm g) /\
+            InverseClosed (pz_gens pz)) /\
+         (forall ls li rs ri : BinNums.Z,
+          BinInt.Z.le (BinNums.Zpos (BinNums.xO BinNums.xH)) ls ->
+          BinInt.Z.le (BinNums.Zpos (BinNums.xO BinNums.xH)) rs ->
+          li = BinNums.Z0 /\ ri = BinNums.Z0 \/
+          (BinInt.Z.le (BinNums.Zpos BinNums.xH) li /\ BinInt.Z.lt li ls) /\
+          BinInt.Z.le (BinNums.Zpos BinNums.xH) ri /\ BinInt.Z.lt ri rs ->
+          BinInt.Z.le (BinInt.Z.mul (BinNums.Zpos (BinNums.xO BinNums.xH)) li) ls ->
+          BinInt.Z.le (BinInt.Z.mul (BinNums.Zpos (BinNums.xO BinNums.xH)) ri) rs ->
+          exists pz : puzzle,
+            hungarian_rings ls li rs ri = Ok pz /\
+            (forall g : list nat,
+             List.In g (pz_gens pz) -> length g = ring_points ls li rs ri /\ Perm g) /\
+            InverseClosed (pz_gens pz)) /\
+         (forall a b : nat,
+          1 <= a ->
+          1 <= b ->
+          exists pz : puzzle,
+            globe_puzzle a b = Ok pz /\
+            (forall g : list nat, List.In g (pz_gens pz) -> length g = 2 * (a + 1) * b /\ Perm g) /\
+            InverseClosed (pz_gens pz)).
+Proof. exact @generator_sets_inverse_closed. Qed.
+Print Assumptions C16_generator_sets_inverse_closed.
+
+(* every other index pair is rejected with ValueError *)
+Theorem C16_rings_perms_rejects :
+  forall ls li rs ri step : BinNums.Z,
+         ~
+         (li = BinNums.Z0 /\ ri = BinNums.Z0 \/
+          (BinInt.Z.le (BinNums.Zpos BinNums.xH) li /\ BinInt.Z.lt li ls) /\
+          BinInt.Z.le (BinNums.Zpos BinNums.xH) ri /\ BinInt.Z.lt ri rs) ->
+         hungarian_rings_permutations ls li rs ri step = Err ValueErr.
+Proof. exact @rings_perms_rejects. Qed.
+Print Assumptions C16_rings_perms_rejects.
